@@ -580,7 +580,7 @@ func TestCheck(t *testing.T) {
 	th := r.Thorough()
 	b1, b2, k := 4, 3, 3
 	if th {
-		b1, b2, k = 5, 4, 4
+		b1, b2, k = 6, 4, 5
 	}
 	scs := []scenario{
 		{Name: "1 caller, json, cancellable", API: "json", Callers: 1, Ctx: []string{"cancel"}, MaxBad: k, Bound: b1},
